@@ -553,6 +553,7 @@ class Norm:
         self.typer = typer or Typer(repo)
         self.var_types: Dict[Term, Type] = {}   # types of free-variable terms (by term)
         self.on_call: Optional[Callable[[Term, ast.Call, Scope, Any], None]] = None
+        self.on_yield: Optional[Callable[[Term, ast.AST], None]] = None
         self.comp_stack: List[Tuple[Term, Tuple[Term, ...]]] = []
         self._lv = 0
 
@@ -1043,6 +1044,18 @@ class Norm:
         v = self.norm(node.value, scope)
         scope.env[node.target.id] = v
         return v
+
+    def n_Yield(self, node: ast.Yield, scope: Scope) -> Term:
+        v = self.norm(node.value, scope) if node.value is not None else C(None)
+        if self.on_yield is not None:
+            self.on_yield(v, node)
+        return ("opaque", "yield")
+
+    def n_YieldFrom(self, node: ast.YieldFrom, scope: Scope) -> Term:
+        v = self.norm(node.value, scope)
+        if self.on_yield is not None:
+            self.on_yield(("call", ("g", "builtin:star"), (v,), ()), node)
+        return ("opaque", "yield")
 
     def n_Await(self, node: ast.Await, scope: Scope) -> Term:
         return self.norm(node.value, scope)
